@@ -421,7 +421,7 @@ impl<'a> MtHelpers<'a> {
                                 label,
                                 admin,
                             )
-                            .map_err(|err| err.downcast().unwrap())
+                            .map_err( #sylvia ::multitest::downcast_error::< #error_type >)
                             .map(|addr| #sylvia ::multitest::Proxy {
                                 contract_addr: addr,
                                 app: code_id.app,
@@ -454,7 +454,7 @@ impl<'a> MtHelpers<'a> {
                 let app_response = (*code_id.app)
                     .app_mut()
                     .execute(sender.clone(), msg.into())
-                    .map_err(|err| err.downcast::< #error_type >().unwrap())?;
+                    .map_err( #sylvia ::multitest::downcast_error::< #error_type >)?;
 
                 #sylvia:: cw_utils::parse_instantiate_response_data(app_response.data.unwrap().as_slice())
                     .map_err(|err| Into::into( #sylvia ::cw_std::StdError::generic_err(err.to_string())))
@@ -697,7 +697,7 @@ impl EmitMethods for MsgVariant<'_> {
                     (*self.app)
                         .app_mut()
                         .wasm_sudo(self.contract_addr.clone(), &msg)
-                        .map_err(|err| err.downcast().unwrap())
+                        .map_err( #sylvia ::multitest::downcast_error::< #error_type >)
                 }
             },
             MsgType::Migrate => quote! {
